@@ -384,10 +384,12 @@ package transaction
 //@   trusted
 //@   modifies-also kv.LockCtx.debt of lockCtx
 //@   ensures lockCtx.debt == (result != nil && (len(old(mutations.(*PlainMutations).keys)) > 1 || (!tikverr.IsErrWriteConflict(result) && !tikverr.IsErrKeyExist(result))))
+// (cntAtRb: definitional snapshot of the lock count at the moment the background rollback was started)
+//@ ghost field KVTxn.cntAtRb int
 //@ func (*KVTxn) asyncPessimisticRollback
 //@   trusted
-//@   modifies-also KVTxn.rbIssued of txn
-//@   ensures txn.rbIssued == old(txn.rbIssued) + 1 && result != nil
+//@   modifies-also KVTxn.rbIssued of txn, KVTxn.cntAtRb of txn
+//@   ensures txn.rbIssued == old(txn.rbIssued) + 1 && result != nil && txn.cntAtRb == txn.lockedCnt
 
 // A failed lock call that can have left locks is followed, before lockKeys returns, by a background rollback of all keys
 // of the call (the ones found already locked included) with a for-update timestamp not below the call's and not below the
@@ -399,6 +401,10 @@ package transaction
 //@   opaque-callee asyncPessimisticRollback resetPrimary pessimisticLockMutations newTwoPhaseCommitter initKeysAndMutations hashInKeys selectPrimaryForPessimisticLock resetTTLManagerForAggressiveLockingMode filterAggressiveLockedKeys collectAggressiveLockingStats
 //@   requires nodebt: !lockCtx.debt
 //@   at return assert rolledback: lockCtx.debt ==> txn.rbIssued > old(txn.rbIssued)
+// the count of held locks (what makes an explicit Rollback collect and roll back the locked keys at all) goes down on a failed
+// call by exactly the keys of the call that were held before and are now being rolled back with the rest - never by the
+// keys whose locking just failed, which were never counted (the site is the first call behind the bookkeeping statement)
+//@   at call(IsInAggressiveLockingMode#8) assert counted: txn.cntAtRb >= 0 && len(keys) <= len(allKeys) ==> txn.lockedCnt == txn.cntAtRb - (len(allKeys) - len(keys))
 // every key the call locked (outside aggressive locking, where DoneAggressiveLocking does it later, and outside lock-only-if-exists,
 // which skips absent keys) is flagged "locked" in the buffer - which is what an explicit Rollback later collects
 //@   loop 5 invariant idx: -1 <= rangeindex && rangeindex < len(keys)
